@@ -24,7 +24,11 @@ RULE = ("PDUs 'from the wire': for simple-tier descriptions (standard-length obj
         "its DTCs (own / DTC-REF / LINKED-DTC-DOPS with NOT-INHERITED, shadowing, chains, declaration orders) with every described and every "
         "not described trouble code, and MIN-MAX-LENGTH objects of every base type x termination x byte order x min/max x end-of-PDU with every "
         "value of <= 3 (two-byte units: 2) code units over the bytes 00/ff/41 (+1 unit over termination byte/41); compu methods of six categories from "
-        "harness/compu_lib.py with every internal value of the 8-bit window. distinct = distinct (description, PDU) resp. (compu method, internal value); "
+        "harness/compu_lib.py with every internal value of the 8-bit window, including coefficients written as decimal fractions (enumerated two-segment "
+        "SCALE-LINEAR small scope x kink value 0 / non-zero, random decimal SCALE-LINEAR / LINEAR / TAB-INTP); the injective ones also behind a DATA-OBJECT-PROP "
+        "of a request loaded from XML, PHYSICAL-TYPE with every PRECISION (none,0..3) x DISPLAY-RADIX (none,HEX,DEC,BIN,OCT) combination, every PDU 22xx whose "
+        "internal value the method converts there and back (Request.decode -> Request.encode); simple DOPs of the random families carry these display hints "
+        "with p = 0.35. distinct = distinct (description, PDU) resp. (compu method, internal value); "
         "non-trivial = the PDU decodes and has more than one byte")
 TRUSTED = ["odxgen/refpdu.py (positional reference interpreter, ~250 lines) and the exact compu emulation in odxgen/values.py",
            "harness/compu_lib.py generators/Spec (written for C07) for the compu family",
@@ -33,7 +37,8 @@ TRUSTED = ["odxgen/refpdu.py (positional reference interpreter, ~250 lines) and 
            "odxtools' DtcDop.dtcs in family wire-enum-dtc-sources)",
            "odxgen/refpdu.sequential_pdu / minmax_wire_length (~70 lines): wire form of MIN-MAX-LENGTH objects written from the ODX rules "
            "(value ends in front of the first ALIGNED termination sequence at an offset >= MIN-LENGTH, at MAX-LENGTH or at the end of the PDU)"]
-ASSUMPTIONS = ["re-encoding feeds the decoded dictionary back unchanged except that values of NRC-CONST parameters are dropped (odxtools refuses them by design)",
+ASSUMPTIONS = ["PRECISION and DISPLAY-RADIX of PHYSICAL-TYPE are display hints (odxtools physicaltype.py: 'how to display the physical value'): they take part in no conversion, so the model does not receive them",
+               "re-encoding feeds the decoded dictionary back unchanged except that values of NRC-CONST parameters are dropped (odxtools refuses them by design)",
                "canonical switch keys: a mux case is re-encoded by name, i.e. with the lower limit of its range (0 for the default case)",
                "'injective' = real physical type with strictly monotone conversion, or integer physical type with every |slope| >= 1; a rounding tie "
                "(two valid internals with the same rounded physical value although |slope| >= 1) is reported (ledger row 15), not excluded",
@@ -128,7 +133,9 @@ def injective(desc):
     return True
 
 
-def compu_case(ctx, desc, family, tag=None):
+def compu_case(ctx, desc, family, tag=None, wire=None):
+    """wire (CompuWire | None): the internal values whose conversion round trip holds on the bare compu method are also sent
+    through Request.decode -> Request.encode as PDUs of a request whose DOP carries the method (loaded from XML)"""
     cm, err = CL.try_build(desc)
     if cm is None:
         ctx.count("compu_build_rejected:" + err)
@@ -140,7 +147,7 @@ def compu_case(ctx, desc, family, tag=None):
         return
     lo, hi = CL._dom(desc["ity"])
     images = {}
-    bad = []
+    bad, good = [], []
     for i in range(lo, hi + 1):
         try:
             if cm.is_valid_internal_value(i) is not True:
@@ -160,6 +167,10 @@ def compu_case(ctx, desc, family, tag=None):
             back, obs = None, O.err_class(e)
         if obs:
             bad.append((i, p, back, obs))
+        else:
+            good.append(i)
+    if wire is not None and good:
+        wire.add(desc, good, "wire-" + family)
     if not bad:
         return
     ties = {i for v in images.values() if len(v) > 1 for i in v}
@@ -188,6 +199,134 @@ def compu_case(ctx, desc, family, tag=None):
 
 
 compu_case.seen = set()
+
+
+# ------------------------------------------------------------------ compu methods behind a DATA-OBJECT-PROP, from the wire (round 7)
+#: the optional parts of PHYSICAL-TYPE (display hints): PRECISION child x DISPLAY-RADIX attribute, all 25 combinations cycled
+PRECISIONS = (1, None, 0, 2, 3)
+RADICES = (None, "HEX", "DEC", "BIN", "OCT")
+
+
+def phys_attrs(n):
+    return PRECISIONS[n % 5], RADICES[(n // 5) % 5]
+
+
+def _od_limit(l):
+    return None if l is None else (None if l["v"] is None else CL.pyval(l["v"]), l["t"])
+
+
+def _od_scales(side):
+    return [{"lower": _od_limit(s.get("lo")), "upper": _od_limit(s.get("hi")),
+             "inv": None if s.get("inv") is None else CL.pyval(s["inv"]),
+             "const": None if s.get("const") is None else CL.pyval(s["const"]),
+             "num": None if s.get("num") is None else [CL.pyval(x) for x in s["num"]],
+             "den": [CL.pyval(x) for x in s.get("den") or []]} for s in (side or {}).get("scales") or []]
+
+
+def compu_request(desc, n, name="RQ"):
+    """request `22 xx`: one 8-bit VALUE parameter whose DOP carries the compu method `desc` (a compu_lib description, emitted
+    as XML by odxgen) and the n-th combination of PHYSICAL-TYPE display hints"""
+    if desc["cat"] == "IDENTICAL":
+        cm = D.Identical()
+    else:
+        cm = D.OtherCompu(desc["cat"], _od_scales(desc.get("i2p")), _od_scales(desc.get("p2i")) or None,
+                          None if (desc.get("i2p") or {}).get("default") is None else CL.pyval(desc["i2p"]["default"]))
+    prec, radix = phys_attrs(n)
+    dop = D.SimpleDop(D.Std(desc["ity"], 8), desc["pty"], cm, precision=prec, radix=radix)
+    return D.Composite(name, "request", [D.sid(), D.value("x", dop)])
+
+
+def simple_dops(comp):
+    """every simple DOP of a composite (parameters at any depth, table rows / keys, count / switch / termination objects)"""
+    seen, out = set(), []
+
+    def add(d):
+        if isinstance(d, D.SimpleDop) and id(d) not in seen:
+            seen.add(id(d))
+            out.append(d)
+    for p, _depth in D.walk_params(comp.params):
+        add(p.dop)
+        for a in ("countdop", "switch_dop", "termdop"):
+            add(getattr(p.dop, a, None))
+        if p.table is not None:
+            add(p.table.keydop)
+            for r in p.table.rows:
+                add(r.dop)
+    return out
+
+
+def with_display_hints(prng, comp, p=0.35):
+    """the random families: each simple DOP gets, with probability p, one of the 24 PRECISION x DISPLAY-RADIX combinations (drawn from
+    a random stream of its own: the shared description generator is untouched); histogram `physical_type_hints_random`"""
+    try:
+        for d in simple_dops(comp):
+            if prng.random() < p:
+                d.precision, d.radix = phys_attrs(prng.randrange(1, 25) if prng.random() < 0.9 else 1)
+    except Exception:  # noqa
+        pass
+    return comp
+
+
+class CompuWire:
+    """collects (description, internal values whose compu round trip holds) and pushes the PDUs `22 <internal>` through
+    Request.decode -> Request.encode in documents of `per_doc` requests"""
+
+    def __init__(self, ctx, rep, per_doc=40):
+        self.ctx, self.rep, self.per_doc, self.pending, self.n = ctx, rep, per_doc, [], 0
+
+    def add(self, desc, internals, family):
+        self.pending.append((desc, internals, family, self.n))
+        self.n += 1
+        if len(self.pending) >= self.per_doc:
+            self.flush()
+
+    def flush(self):
+        ctx, todo, self.pending = self.ctx, self.pending, []
+        if not todo:
+            return
+        try:
+            comps = [compu_request(d, n, "RQ%d" % k) for k, (d, _i, _f, n) in enumerate(todo)]
+        except Exception as e:  # noqa
+            ctx.count("compu_wire_generation_error:" + type(e).__name__)
+            return
+        L, err = O.safe_load(comps)
+        if L is None:
+            # one description the loader refuses must not hide the others
+            if len(todo) > 1:
+                for t in todo:
+                    self.pending = [t]
+                    self.flush()
+            else:
+                ctx.count("compu_wire_rejected_by_loader:" + (err or "").split(":")[0])
+            return
+        ctx.count("documents_loaded")
+        for c, (desc, internals, family, n) in zip(comps, todo):
+            prec, radix = phys_attrs(n)
+            ctx.histo("family", family)
+            ctx.histo("physical_type_hints", "precision=%s radix=%s" % (prec, radix))
+            feats = [desc["cat"], "int-physical" if desc["pty"] in CL.INT_TYPES else "real-physical"] + \
+                (["precision"] if prec is not None else []) + (["display-radix"] if radix is not None else []) + ["compu-behind-dop"]
+            try:
+                obj = L[c.name]
+            except Exception as e:  # noqa
+                ctx.count("compu_wire_lookup_error:" + type(e).__name__)
+                continue
+            for i in internals:
+                pdu = bytes([0x22, i & 0xFF])
+                try:
+                    r, dec, enc = O.c03_eval(c, obj, pdu, None)
+                except Exception as e:  # noqa
+                    r, dec = ("re-encode", "foreign:" + type(e).__name__, {"pdu": pdu.hex()}), None
+                ctx.case(("compu-wire", repr(desc.get("i2p")), desc["ity"], desc["pty"], desc["cat"], prec, radix, i),
+                         nontrivial=bool(dec is not None and dec.ok))
+                ctx.count("compu_wire_pdus")
+                if r is None and dec is not None and not dec.ok:
+                    # the compu method declares the internal value valid (and converts it there and back): the PDU must decode
+                    r = ("wire-decode", dec.status, {"pdu": pdu.hex(), "error": dec.msg})
+                if r:
+                    self.rep.report(r[0], r[1], c, None, None, r[2], fixed_features=feats,
+                                    what=f"{desc['cat']} {desc['ity']}->{desc['pty']} behind a DOP (PRECISION {prec}, DISPLAY-RADIX {radix}): "
+                                         f"PDU {pdu.hex()}: {r[0]} / {r[1]} {str(r[2])[:200]}")
 
 
 # ------------------------------------------------------------------ PDU families
@@ -330,6 +469,8 @@ def run(ctx):
     corr = O.Correspondence(ctx)
     V.CANON_KEYS = True
     compu_case.seen = set()
+    wire = CompuWire(ctx, rep)
+    hrng = ctx.sub_rng("physical-type-hints")
     try:
         # (a) corpus
         for tag, c, pdu, trig in corpus():
@@ -348,7 +489,7 @@ def run(ctx):
             ctx.histo("family", "finding-corpus")
             O.c03_check(ctx, rep, None, c, L[c.name], bytes.fromhex(pdu), None, "finding-corpus", shrinkable=False, fixed_features=[tag], what=what)
         for tag, desc in compu_corpus():
-            compu_case(ctx, desc, "compu-corpus")
+            compu_case(ctx, desc, "compu-corpus", wire=wire)
         # (b) from the wire: enumerated standard-length DOPs and random simple-tier composites
         bitlens = range(1, 65) if big else sorted(set(V.BIAS_LENGTHS + [2, 3, 4, 5, 6, 12, 24] + rng.sample(range(1, 65), 4)))
         for comps in batches(G.enum_std_numeric(bitlens, range(8) if big else (0, 1, 4, 7)), 64):
@@ -360,7 +501,7 @@ def run(ctx):
         minmax_wire_family(ctx, rep, corr, big)
         for i in range(8000 if big else 1200):
             try:
-                c = G.gen_composite(rng, profile=G.SIMPLE_DEEP if big else G.SIMPLE, name="C")
+                c = with_display_hints(hrng, G.gen_composite(rng, profile=G.SIMPLE_DEEP if big else G.SIMPLE, name="C"))
             except Exception as e:  # noqa
                 ctx.count("generator_error:" + type(e).__name__)
                 continue
@@ -371,7 +512,7 @@ def run(ctx):
         # (c) PDUs produced by the encoder for the full envelope
         for i in range(15000 if big else 2500):
             try:
-                c = G.gen_composite(rng, profile=G.THOROUGH if big else G.QUICK, name="C")
+                c = with_display_hints(hrng, G.gen_composite(rng, profile=G.THOROUGH if big else G.QUICK, name="C"))
             except Exception as e:  # noqa
                 ctx.count("generator_error:" + type(e).__name__)
                 continue
@@ -459,7 +600,7 @@ def run(ctx):
             flush_model()
             for i in range(6000 if big else 900):
                 try:
-                    c = G.gen_composite(mrng, profile=G.THOROUGH if big else G.QUICK, name="C")
+                    c = with_display_hints(hrng, G.gen_composite(mrng, profile=G.THOROUGH if big else G.QUICK, name="C"))
                 except Exception:  # noqa
                     continue
                 model_cases([c], 3)
@@ -477,7 +618,23 @@ def run(ctx):
             except Exception as e:  # noqa
                 ctx.count("compu_generator_error:" + type(e).__name__)
                 continue
-            compu_case(ctx, desc, "compu-random")
+            compu_case(ctx, desc, "compu-random", wire=wire if big or i % 3 == 0 else None)
+        # (d') coefficients as real ODX files write them: decimal fractions no double represents (compu_lib, "decimal" section): the two
+        #      formulas of adjacent SCALE-LINEAR segments then differ by ~1e-16 at the common boundary (also at a boundary with physical
+        #      value 0, where only an absolute tolerance can call them equal); enumerated small scope + random methods
+        for n, desc in enumerate(CL.decimal_small_scope(big)):
+            ctx.count("decimal_kinks_with_double_noise", CL.kink_noise(desc))
+            compu_case(ctx, desc, "compu-decimal-small-scope", wire=wire if n % (2 if big else 4) == 0 else None)
+        drng = ctx.sub_rng("compu-decimal")
+        for n in range(2400 if big else 500):
+            try:
+                desc = CL.gen_decimal_tab(drng) if n % 4 == 0 else CL.gen_decimal(drng)
+            except Exception as e:  # noqa
+                ctx.count("compu_generator_error:" + type(e).__name__)
+                continue
+            ctx.count("decimal_kinks_with_double_noise", CL.kink_noise(desc))
+            compu_case(ctx, desc, "compu-decimal-random", wire=wire if big or n % 2 == 0 else None)
+        wire.flush()
     finally:
         V.CANON_KEYS = False
 
